@@ -154,21 +154,21 @@ theorem c43_after_end (sh : Shape) (st : State sh) (h : (next sh st).2 = false) 
     rw [h1] at this
     simp at this
 
-/-- JSONIter: reading to the end yields the well-formed prefix, then (at most) one error result,
-and nothing after it. -/
-def JIt.run : Nat → JIt → List (Option Int)
+/-- JSONIter (any element type): reading to the end yields the well-formed prefix — each value exactly
+as encoded, independent of the values before it — then (at most) one error result, and nothing after it. -/
+def JIt.run {α : Type} : Nat → JIt α → List (Option α)
   | 0, _ => []
   | fuel + 1, j =>
     let r := j.next
     if r.2 then (if r.1.err then none else some r.1.val) :: JIt.run fuel r.1 else []
 
-def jsonSpec : List (Option Int) → List (Option Int)
+def jsonSpec {α : Type} : List (Option α) → List (Option α)
   | [] => []
   | some v :: r => some v :: jsonSpec r
   | none :: _ => [none]
 
-theorem c43_json_any (toks : List (Option Int)) : ∀ (v : Int) (e : Bool),
-    JIt.run (toks.length + 1) { toks := toks, done := false, val := v, err := e } = jsonSpec toks := by
+theorem c43_json_any {α : Type} (z : α) (toks : List (Option α)) : ∀ (v : α) (e : Bool),
+    JIt.run (toks.length + 1) { zero := z, toks := toks, done := false, val := v, err := e } = jsonSpec toks := by
   induction toks with
   | nil => intro v e; simp [JIt.run, JIt.next, jsonSpec]
   | cons t r ih =>
@@ -181,10 +181,10 @@ theorem c43_json_any (toks : List (Option Int)) : ∀ (v : Int) (e : Bool),
       simp only [List.length_cons, JIt.run, JIt.next, jsonSpec] at this ⊢
       simpa using this
 
-theorem c43_json (toks : List (Option Int)) :
-    JIt.run (toks.length + 1) { toks := toks } = jsonSpec toks := c43_json_any toks 0 false
+theorem c43_json {α : Type} (z : α) (toks : List (Option α)) :
+    JIt.run (toks.length + 1) (JIt.fresh z toks) = jsonSpec toks := c43_json_any z toks z false
 
-theorem c43_json_closed (j : JIt) : (j.close.next).2 = false := by
+theorem c43_json_closed {α : Type} (j : JIt α) : (j.close.next).2 = false := by
   simp [JIt.close, JIt.next]
 
 /-! Non-vacuity: concrete, non-trivial instances (a depth-3 composition with a positive limit). -/
@@ -193,5 +193,8 @@ example : (readAll (.limit 2 (.filter (fun x => x % 2 == 0) (.map (· + 1) .src)
 example : (source _ (readAll (.limit 2 (.filter (fun x => x % 2 == 0) (.map (· + 1) .src)))
     (fresh [1, 2, 3, 4, 5, 6] _)).1).nexts = 3 := by decide
 example : (readAll (.limit 0 (.map (· * 2) .src)) (fresh [1, 2, 3] _)).2 = [2, 4, 6] := by decide
+
+example : JIt.run 4 (JIt.fresh ([] : List Int) [some [1, 2, 3], some [4, 5], some [6]]) =
+    [some [1, 2, 3], some [4, 5], some [6]] := by decide
 
 end C43
